@@ -12,6 +12,7 @@ VMap = Dict[Str, NT['rbql_engine.VariableInfo']]
 def _(query_text: Str, prefix: Str, dst_variables_map: VMap):
     ensures(forall(Str, lambda k: has_key(dst_variables_map, k) == (old(has_key(dst_variables_map, k)) or vb_has(query_text, prefix, k))), 'keys')
     ensures(forall(Str, lambda k: implies(has_key(dst_variables_map, k), dst_variables_map[k] == (vb_val(query_text, prefix, k) if vb_has(query_text, prefix, k) else old(dst_variables_map[k])))), 'override')
+    ensures(forall(Str, lambda k: implies(vb_has(query_text, prefix, k), vb_val(query_text, prefix, k).index >= 0)), 'zero_based_indices')
     modifies(dst_variables_map)
 
 
@@ -19,6 +20,7 @@ def _(query_text: Str, prefix: Str, dst_variables_map: VMap):
 def _(query_text: Str, prefix: Str, dst_variables_map: VMap):
     ensures(forall(Str, lambda k: has_key(dst_variables_map, k) == (old(has_key(dst_variables_map, k)) or va_has(query_text, prefix, k))), 'keys')
     ensures(forall(Str, lambda k: implies(has_key(dst_variables_map, k), dst_variables_map[k] == (va_val(query_text, prefix, k) if va_has(query_text, prefix, k) else old(dst_variables_map[k])))), 'override')
+    ensures(forall(Str, lambda k: implies(va_has(query_text, prefix, k), va_val(query_text, prefix, k).index >= 0)), 'zero_based_indices')
     modifies(dst_variables_map)
 
 
@@ -27,6 +29,7 @@ def _(query_text: Str, prefix: Str, column_names: List[Str], dst_variables_map: 
     ensures(forall(Str, lambda k: has_key(dst_variables_map, k) == (old(has_key(dst_variables_map, k)) or vd_has(query_text, prefix, contents(column_names), k))), 'keys')
     ensures(forall(Str, lambda k: implies(has_key(dst_variables_map, k), dst_variables_map[k] == (vd_val(query_text, prefix, contents(column_names), k) if vd_has(query_text, prefix, contents(column_names), k) else old(dst_variables_map[k])))), 'override')
     ensures(contents(column_names) == old(contents(column_names)), 'names_untouched')
+    ensures(forall(Str, lambda k: implies(vd_has(query_text, prefix, contents(column_names), k), vd_val(query_text, prefix, contents(column_names), k).index >= 0)), 'zero_based_indices')
     modifies(dst_variables_map)
 
 
@@ -37,6 +40,7 @@ def _(query_text: Str, prefix: Str, column_names: List[Str], column_names_source
     ensures(forall(Str, lambda k: implies(has_key(dst_variables_map, k), dst_variables_map[k] == (vt_val(query_text, prefix, contents(column_names), k) if vt_has(query_text, prefix, contents(column_names), k) else old(dst_variables_map[k])))), 'override')
     ensures(contents(column_names) == old(contents(column_names)), 'names_untouched')
     raises('rbql_engine.RbqlParsingError', vt_fail(query_text, prefix, contents(column_names)), 'unknown_column')
+    ensures(forall(Str, lambda k: implies(vt_has(query_text, prefix, contents(column_names), k), vt_val(query_text, prefix, contents(column_names), k).index >= 0)), 'zero_based_indices')
     modifies(dst_variables_map)
 
 
@@ -47,6 +51,7 @@ def _(query_text: Str, column_names: List[Str], dst_variables_map: VMap):
     ensures(forall(Str, lambda k: implies(has_key(dst_variables_map, k), dst_variables_map[k] == (vm_val(query_text, contents(column_names), k) if vm_has(query_text, contents(column_names), k) else old(dst_variables_map[k])))), 'override')
     ensures(contents(column_names) == old(contents(column_names)), 'names_untouched')
     raises('rbql_engine.RbqlIOHandlingError', vm_fail(query_text, contents(column_names)), 'name_is_not_an_identifier')
+    ensures(forall(Str, lambda k: implies(vm_has(query_text, contents(column_names), k), vm_val(query_text, contents(column_names), k).index >= 0)), 'zero_based_indices')
     modifies(dst_variables_map)
 
 
@@ -83,6 +88,7 @@ def _(self: Obj['rbql_engine.TableIterator'], query_text: Str) -> VMap:
     assumes(forall(Str, lambda k: not (vb_has(query_text, self.variable_prefix, k) and va_has(query_text, self.variable_prefix, k))), 'A-PARSE-VARS: aN and a[N] never coincide')
     local_types(variable_map=VMap)
     ensures(is_fresh(result), 'a_new_map_per_call')
+    ensures(vmap_ok(result), 'zero_based_column_indices')
     ensures(implies(is_none(self.column_names), positional_vars(result, query_text, self.variable_prefix)), 'without_names_only_positional_variables')
     ensures(implies(not is_none(self.column_names) and self.normalize_column_names,
                     normalized_vars(result, query_text, self.variable_prefix, contents(opt_val(self.column_names)))), 'with_names_every_spelling')
@@ -104,6 +110,7 @@ def _(self: Obj['rbql_csv.CSVRecordIterator'], query_text: Str) -> VMap:
     assumes(forall(Str, lambda k: not (vb_has(query_text, self.variable_prefix, k) and va_has(query_text, self.variable_prefix, k))), 'A-PARSE-VARS: aN and a[N] never coincide')
     local_types(variable_map=VMap)
     ensures(is_fresh(result), 'a_new_map_per_call')
+    ensures(vmap_ok(result), 'zero_based_column_indices')
     ensures(implies(not (self.has_header and not is_none(self.first_record)), positional_vars(result, query_text, self.variable_prefix)), 'without_header_only_positional_variables')
     ensures(implies(self.has_header and not is_none(self.first_record),
                     normalized_vars(result, query_text, self.variable_prefix, contents(opt_val(self.first_record)))), 'with_header_every_spelling_over_the_header_line')
@@ -126,6 +133,7 @@ def _(self: Obj['rbql_sqlite.SqliteRecordIterator'], query_text: Str) -> VMap:
     assumes(shapes_disjoint(query_text, self.variable_prefix, self.names), 'A-PARSE-VARS: spellings of different kinds never coincide')
     local_types(variable_map=VMap)
     ensures(is_fresh(result), 'a_new_map_per_call')
+    ensures(vmap_ok(result), 'zero_based_column_indices')
     ensures(normalized_vars(result, query_text, self.variable_prefix, self.names), 'every_spelling_over_the_table_columns')
     raises('rbql_engine.RbqlParsingError', vt_fail(query_text, self.variable_prefix, self.names), 'unknown_column')
     modifies(fresh_only())
@@ -141,6 +149,7 @@ def _(self: Obj['rbql_pandas.DataframeIterator'], query_text: Str) -> VMap:
     assumes(forall(Str, lambda k: not (vb_has(query_text, self.variable_prefix, k) and va_has(query_text, self.variable_prefix, k))), 'A-PARSE-VARS: aN and a[N] never coincide')
     local_types(variable_map=VMap)
     ensures(is_fresh(result), 'a_new_map_per_call')
+    ensures(vmap_ok(result), 'zero_based_column_indices')
     ensures(implies(is_none(self.column_names), positional_vars(result, query_text, self.variable_prefix)), 'without_names_only_positional_variables')
     ensures(implies(not is_none(self.column_names) and self.normalize_column_names,
                     normalized_vars(result, query_text, self.variable_prefix, contents(opt_val(self.column_names)))), 'with_names_every_spelling')
